@@ -50,6 +50,7 @@ var transSpecs = []transSpec{
 	{"txcache/transactionsHeapItem.go", "transactionsHeapItem", "detectMiddleGap", "middleGap", "func"},
 	{"txcache/transactionsHeapItem.go", "transactionsHeapItem", "detectLowerNonce", "lowerNonce", "func"},
 	{"txcache/transactionsHeapItem.go", "transactionsHeapItem", "detectNonceDuplicate", "nonceDuplicate", "func"},
+	{"txcache/selectionSessionWrapper.go", "selectionSessionWrapper", "detectWillFeeExceedBalance", "feeExceedsBalance", "func"},
 	{"txcache/selection.go", "", "selectTransactionsFromBunches", "selectionStops", "breaks"},
 	{"lrucache/capacity/capacityLRUCache.go", "capacityLRU", "shouldEvict", "lruShouldEvict", "func"},
 	{"immunitycache/chunk.go", "immunityChunk", "isCapacityExceededNoLock", "chunkExceeded", "func"},
@@ -242,6 +243,12 @@ func (t *translator) expr(e ast.Expr, want string) (string, string) {
 		}
 		if sel, ok := x.Fun.(*ast.SelectorExpr); ok && sel.Sel.Name == "SetUint64" && len(x.Args) == 1 && strings.HasPrefix(t.src(sel.X), "new(big.Int)") {
 			return t.expr(x.Args[0], "Int")
+		}
+		if sel, ok := x.Fun.(*ast.SelectorExpr); ok && (sel.Sel.Name == "Add" || sel.Sel.Name == "Sub" || sel.Sel.Name == "Mul") && len(x.Args) == 2 && strings.HasPrefix(t.src(sel.X), "new(big.Int)") {
+			a, _ := t.expr(x.Args[0], "Int")
+			b, _ := t.expr(x.Args[1], "Int")
+			op := map[string]string{"Add": "+", "Sub": "-", "Mul": "*"}[sel.Sel.Name]
+			return "(" + a + " " + op + " " + b + ")", "Int"
 		}
 		if sel, ok := x.Fun.(*ast.SelectorExpr); ok && sel.Sel.Name == "Div" && len(x.Args) == 2 && strings.HasPrefix(t.src(sel.X), "new(big.Int)") {
 			// (*big.Int).Div is Euclidean division, as Lean's Int `/`
